@@ -13,15 +13,15 @@ MATCHER_NOTE = ("Trusted: Lean kernel; axioms propext/Classical.choice/Quot.soun
 
 CLAIMS = {
     "C01": dict(
-        technique="Lean 4 theorems (full decision theorem for ASCII haystack x ASCII needle; decider lemmas and C16 agreement for code-point haystacks) + model/implementation correspondence with the subsequence oracle on the implementation",
-        text="Proof, partial for code-point haystacks. Theorems (all inputs): the oracle's decision is List.Sublist; for every configuration, every ASCII haystack and every already-"
-             "normalized ASCII needle fuzzy_match/fuzzy_indices succeed iff the needle is a subsequence of the normalized haystack (C01_decision_ascii: length guards, equal-length "
-             "shortcut, one-character scan, prefilter window [first occurrence, greedy end, last occurrence], contiguous shortcut, matrix path - completeness of the two-matrix "
-             "recurrence - and greedy fallback composed), the greedy entry points decide the same relation (C01_decision_ascii_greedy) and all four agree "
-             "(C01_entry_points_agree_ascii). For a code-point haystack: the greedy forward scan and the DP's row-offset pass decide the subsequence relation, all deciders see the "
-             "same normalized haystack in both representations (C16), the recurrence is complete (DP.optimalDP_isSome); the composition through prefilter_non_ascii is not yet a "
-             "theorem and rests on the correspondence (model = implementation on every generated case) plus the Sublist oracle evaluated on the implementation's results. "
-             "Finding K1 is reported as KNOWN-FINDING."),
+        technique="Lean 4 theorems: the full decision theorem for every representation pair except K1's (prefilter specifications, completeness of the recurrence, scans), agreement of the four entry points, representation independence + model/implementation correspondence with the subsequence oracle",
+        text="Proof over the model for all inputs. Theorems: the oracle's decision is List.Sublist; for every configuration, every haystack and every already-normalized needle, "
+             "fuzzy_match/fuzzy_indices succeed iff the needle is a subsequence of the normalized haystack - C01_decision_ascii (ASCII haystack x ASCII needle) and "
+             "C01_decision_unicode (code-point haystack x needle in either representation): length guards, equal-length shortcut, one-character scan, the prefilter window (ASCII: "
+             "first occurrence, greedy end, last occurrence; code points: first occurrence of the first and last occurrence of the last needle character, length check), contiguous "
+             "shortcut, matrix path (completeness of the two-matrix recurrence, DP.optimalDP_isSome) and greedy fallback, composed; the greedy entry points decide the same relation "
+             "(C01_decision_*_greedy), all four agree (C01_entry_points_agree_*), and the answer does not depend on the representation (C01_representation_independent). The remaining "
+             "pair, ASCII-representation haystack x code-point needle, answers None for every input in model and code: KNOWN-FINDING K1. Tie to the code: the model is replayed "
+             "against the implementation on every generated case and the Sublist oracle is evaluated on the implementation's own results."),
     "C02": dict(
         technique="Lean 4 theorems (index-pushing loop of calculate_score; cell invariants of the optimal matcher's recurrence) + witness oracle on the implementation's indices",
         text="Partial proof. Theorems: meaning of the witness predicate; every calculate_score-based path reports strictly increasing indices inside [start,end) of the haystack; "
